@@ -39,7 +39,7 @@ type c17Op struct {
 
 func TestC17(t *testing.T) {
 	r, e := start(t, "C17",
-		"random histories (<= 12 operations quick, <= 30 thorough) of write(p,s), write(p,s,false), write(p,s,true) (the flag spelled as a literal, a variable, a comparison or exists(p) where that has the wanted value), read(p) (only where the model says p exists) and exists(p) over 2-4 paths drawn from {plain, sub-directory, blank, double blank, leading dash, ;, *, $, ', leading blank, &} and contents from {neutral, empty, edge blanks, blank runs, quotes, $, $(cmd), backquote, backslash, glob, -n, tab, shell metacharacters, #, embedded newline, !, %}; the whole history is one generated program (a third of the operations wrapped in a construct that runs them once: taken branch, else branch, one-pass loop, switch case, branch inside a loop), values literal or held in variables read from stdin, half the time executed inside a function with paths/contents as parameters; a third of the operations are performed by small helper functions (hwrite, hread, ...) called from the history instead of directly; a sixth of the steps are triples 'observe p (read/exists), a helper FUNCTION writes p, observe p again' in one straight-line block. Oracle: model map[path][]line: file bytes = lines joined by newline + newline, read = lines joined, exists = key present; the sandbox afterwards holds exactly the model's files. Non-trivial = append after overwrite after append on one path, or >= 2 paths with a non-plain path or content; distinct by history.",
+		"random histories (<= 12 operations quick, <= 30 thorough) of write(p,s), write(p,s,false), write(p,s,true) (the flag spelled as a literal, a variable, a comparison or exists(p) where that has the wanted value), read(p) (only where the model says p exists) and exists(p) over 2-4 paths drawn from {plain, sub-directory, blank, double blank, leading dash, ;, *, $, ', leading blank, &} and contents from {neutral, empty, edge blanks, blank runs, quotes, $, $(cmd), backquote, backslash, glob, -n, tab, shell metacharacters, #, embedded newline, !, %}; the whole history is one generated program (a third of the operations wrapped in a construct that runs them once: taken branch, else branch, one-pass loop, switch case, branch inside a loop), values literal or held in variables read from stdin, written plainly or as a call result, a parenthesised expression, a concatenation or a slice element, half the time executed inside a function with paths/contents as parameters; a third of the operations are performed by small helper functions (hwrite, hread, ...) called from the history instead of directly; a sixth of the steps are triples 'observe p (read/exists), a helper FUNCTION writes p, observe p again' in one straight-line block. Oracle: model map[path][]line: file bytes = lines joined by newline + newline, read = lines joined, exists = key present; the sandbox afterwards holds exactly the model's files. Non-trivial = append after overwrite after append on one path, or >= 2 paths with a non-plain path or content; distinct by history.",
 		[]string{"reading a missing file is outside the statement (never generated)", "contents ending in a newline are not generated (read strips trailing newlines by definition)", "values containing $, backquote, double quote or backslash are supplied at run time through input(): as source literals they fall under the listed C08 finding"})
 	defer r.Flush()
 	maxOps := e.Pick(12, 30)
@@ -162,6 +162,30 @@ func TestC17(t *testing.T) {
 			}
 			return map[bool]string{true: "true", false: "false"}[want]
 		}
+		usesIdf := false
+		dressN := 0
+		// dress: the same value written as a call result, a parenthesised expression, a concatenation or a slice element
+		dress := func(b *strings.Builder, expr string) string {
+			form := gen.Uniform(0, 7).Draw(t, "operand-form")
+			if form <= 3 {
+				return expr
+			}
+			r.Class(fmt.Sprintf("operand-form:%d", form))
+			dressN++
+			switch form {
+			case 4:
+				usesIdf = true
+				return "idf(" + expr + ")"
+			case 5:
+				return "(" + expr + ")"
+			case 6:
+				return "\"\" + " + expr
+			default:
+				name := fmt.Sprintf("el%d", dressN)
+				b.WriteString(name + " := []string{\"x\", " + expr + "}\n")
+				return name + "[1]"
+			}
+		}
 		bodyAll := &body
 		for opIdx, op := range ops {
 			var body strings.Builder // one operation; possibly wrapped into a block that runs it once
@@ -188,10 +212,10 @@ func TestC17(t *testing.T) {
 				continue
 			}
 			path := c17Paths[op.path].p
-			pe := valueRef("p", op.path, path)
+			pe := dress(&body, valueRef("p", op.path, path))
 			switch op.kind {
 			case "write":
-				ce := valueRef("c", op.content, c17Contents[op.content].s)
+				ce := dress(&body, valueRef("c", op.content, c17Contents[op.content].s))
 				if via {
 					body.WriteString("hwrite(" + pe + ", " + ce + ")\n")
 				} else {
@@ -199,7 +223,7 @@ func TestC17(t *testing.T) {
 				}
 				cur[path] = []string{c17Contents[op.content].s}
 			case "overwrite-false":
-				ce := valueRef("c", op.content, c17Contents[op.content].s)
+				ce := dress(&body, valueRef("c", op.content, c17Contents[op.content].s))
 				if via {
 					body.WriteString("hwritef(" + pe + ", " + ce + ", " + flagExpr(op, false, pe) + ")\n")
 				} else {
@@ -207,7 +231,7 @@ func TestC17(t *testing.T) {
 				}
 				cur[path] = []string{c17Contents[op.content].s}
 			case "append":
-				ce := valueRef("c", op.content, c17Contents[op.content].s)
+				ce := dress(&body, valueRef("c", op.content, c17Contents[op.content].s))
 				if via {
 					body.WriteString("hwritef(" + pe + ", " + ce + ", " + flagExpr(op, true, pe) + ")\n")
 				} else {
@@ -238,6 +262,9 @@ func TestC17(t *testing.T) {
 		var src strings.Builder
 		if flagVars {
 			src.WriteString("fyes := true\nfno := 1 > 2\n")
+		}
+		if usesIdf {
+			src.WriteString("func idf(v string) string {\n\treturn v\n}\n")
 		}
 		if usesHelpers {
 			src.WriteString("func hwrite(p string, c string) {\n\twrite(p, c)\n}\nfunc hwritef(p string, c string, a bool) {\n\twrite(p, c, a)\n}\nfunc hread(p string) string {\n\treturn read(p)\n}\nfunc hexists(p string) bool {\n\treturn exists(p)\n}\n")
